@@ -625,6 +625,12 @@ func vfRandRoute(r *vfh.Rand) netip.Prefix {
 // callback in c15Run)
 var c15Reenter *Route
 
+var (
+	c15ReenterRA   *ndp.RouterAdvertisement
+	c15ReenterDone chan struct{}
+	c15ReenterErr  error
+)
+
 func c15Run(t *testing.T, out *vfh.Out, k int, rs []netip.Prefix) {
 	routes := make([]system.Route, len(rs))
 	pref := []ndp.Preference{ndp.Medium, ndp.High, ndp.Low}[k%3]
@@ -657,7 +663,18 @@ func c15Run(t *testing.T, out *vfh.Out, k int, rs []netip.Prefix) {
 				// runs here, between this expansion's start and its use of the dump
 				if other := c15Reenter; other != nil {
 					c15Reenter = nil
-					_ = other.Apply(&ndp.RouterAdvertisement{})
+					done := make(chan struct{})
+					c15ReenterDone = done
+					go func() {
+						defer close(done)
+						c15ReenterErr = other.Apply(c15ReenterRA)
+					}()
+					// the second expansion normally completes at once; if it is made to wait for
+					// this one (shared work), let this one go on after a moment
+					select {
+					case <-done:
+					case <-time.After(300 * time.Millisecond):
+					}
 				}
 				return c15Cur, nil
 			}}
@@ -691,9 +708,53 @@ func c15Run(t *testing.T, out *vfh.Out, k int, rs []netip.Prefix) {
 	}
 	pre := vfWildPre(k, rs)
 	ra := &ndp.RouterAdvertisement{Options: append([]ndp.Option(nil), pre...)}
-	if k%5 == 2 && !dep && vfPrepareIfi == nil {
-		c15Reenter = rt
+	c15ReenterRA, c15ReenterDone, c15ReenterErr = &ndp.RouterAdvertisement{}, nil, nil
+	var otherRt *Route
+	switch {
+	case k%5 == 2 && !dep && vfPrepareIfi == nil:
+		c15Reenter = rt // the same plugin value (a scrape next to the advertiser)
 		defer func() { c15Reenter = nil }()
+	case k%5 == 3 && !dep && vfPrepareIfi == nil:
+		// ANOTHER interface's `::/0` stanza, with its own preference and lifetime, expands at the
+		// same moment (the loopback routes are the host's: both read the same dump)
+		otherRt = &Route{Auto: true, Prefix: vfMp("::/0"), Preference: []ndp.Preference{ndp.High, ndp.Low, ndp.Medium}[k%3], Lifetime: cfgLt + 7*time.Second,
+			Routes: func() ([]system.Route, error) { return c15Cur, nil }}
+		c15Reenter = otherRt
+		defer func() { c15Reenter = nil }()
+	}
+	if otherRt != nil {
+		// the other stanza's options, judged by the same model with ITS parameters
+		defer func() {
+			if c15ReenterDone == nil {
+				return
+			}
+			select {
+			case <-c15ReenterDone:
+			case <-time.After(5 * time.Second):
+				out.Line(new(vfh.Toks).S("wr").N(int(otherRt.Preference)).I(int64(otherRt.Lifetime)).N(0).String(), "hung")
+				return
+			}
+			c2 := new(vfh.Toks).S("wr").N(int(otherRt.Preference)).I(int64(otherRt.Lifetime)).N(len(rs))
+			for _, p := range rs {
+				c2.Prefix(p)
+			}
+			impl := new(vfh.Toks)
+			if c15ReenterErr != nil {
+				impl.S("err")
+			} else {
+				impl.N(len(c15ReenterRA.Options))
+				for _, o := range c15ReenterRA.Options {
+					ri, ok := o.(*ndp.RouteInformation)
+					if !ok {
+						impl.S("?")
+						continue
+					}
+					impl.Prefix(netip.PrefixFrom(ri.Prefix, int(ri.PrefixLength)))
+					impl.N(int(ri.Preference)).I(int64(ri.RouteLifetime))
+				}
+			}
+			out.Line(c2.String(), impl.String())
+		}()
 	}
 	out.Try(c.String(), func() string {
 		impl := new(vfh.Toks)
